@@ -359,7 +359,7 @@ func Yield() {
 		s.checkID(t)
 	}
 	s.yields++
-	if s.yields > 40*s.cfg.MaxSteps {
+	if s.yields > 4*s.cfg.MaxSteps {
 		// a task is spinning through scheduling points without ever blocking
 		// (livelock in the code under test): end the run as inconclusive
 		if s.aborted == "" {
